@@ -14,12 +14,14 @@ import (
 	"crypto/x509"
 	"encoding/pem"
 	"errors"
+	"fmt"
 	"go/ast"
 	"go/parser"
 	"go/token"
 	"math/rand"
 	"strconv"
 
+	amd_manifest "github.com/linuxboot/fiano/pkg/amd/manifest"
 	"github.com/linuxboot/fiano/pkg/amd/psb"
 
 	"verif/harness/core"
@@ -325,6 +327,44 @@ func pspKeyInfos() string {
 	return s
 }
 
+// getKeysStages: the steps psb.GetKeys is made of, each called on its own through the exported API (what
+// Driver/C20.lean amdKeyStages computes from the model): the root-key entry, NewRootKey, the key-database
+// entry, newPSPBinary + getSignedBlob with the root key as the only key.
+func getKeysStages(fw *amd_manifest.AMDFirmware, level uint) string {
+	r, rk, d, v := "E", "-", "-", "-"
+	rb, err := psb.ExtractPSPEntry(fw, 1, 0x00)
+	if err == nil {
+		r = strconv.Itoa(len(rb))
+		rk = "E"
+		if root, err := psb.NewRootKey(bytes.NewBuffer(rb)); err == nil {
+			rk = "ok"
+			d = "E"
+			if e, err := psb.GetPSPEntry(fw.PSPFirmware(), level, 0x50); err == nil {
+				if db, err := psb.GetRangeBytes(fw.Firmware().ImageBytes(), e.LocationOrValue, uint64(e.Size)); err == nil {
+					d = strconv.Itoa(len(db))
+					ks := psb.NewKeySet()
+					_ = ks.AddKey(root, psb.AMDRootKey)
+					res, err := psb.ValidatePSPEntry(fw, ks, e.LocationOrValue, uint64(e.Size))
+					v = "E"
+					if err == nil {
+						var uke *psb.UnknownSigningKeyError
+						var sce *psb.SignatureCheckError
+						switch {
+						case res.Error() == nil, errors.As(res.Error(), &sce):
+							v = "reach"
+						case errors.As(res.Error(), &uke):
+							v = "nokey"
+						default:
+							v = "invalid"
+						}
+					}
+				}
+			}
+		}
+	}
+	return fmt.Sprintf("r=%s;rk=%s;d=%s;v=%s", r, rk, d, v)
+}
+
 func padTo(in []byte, n int) []byte {
 	if len(in) >= n {
 		return append([]byte(nil), in...)
@@ -457,9 +497,19 @@ func init() {
 			if _, err2 := psb.ValidatePSPEntries(fw, ks, psb.PSPDirectoryLevel1, []uint32{0x50}); err2 != nil {
 				sub += "+validate-err"
 			}
-			return Res{Class: class(err), Sub: sub, Out: pad}
+			return Res{Class: class(err), Sub: sub, Out: pad, MCls: "k:" + class(err) + ";" + getKeysStages(fw, 1)}
 		},
-		Quick: 900,
+		// the model gets the verdict of the signature checks from Go's outcome (RSA is not byte parsing): what is
+		// compared is "Go succeeds ⇒ every structural check of the model passes" and the stage vector
+		Model: func(in []byte, _ map[string]string, res Res) string {
+			// ~0.1 s per 384 KiB image in the compiled driver: every success, and a digest-chosen fifth of the rest
+			if len(in) > amdImgSize || res.MCls == "" || (res.Class != "ok" && core.FNV(in)%5 != 0) {
+				return ""
+			}
+			return fmt.Sprintf("amd.getkeys %s %d 1 %s", core.Hex(in), amdImgSize, res.Class)
+		},
+		ModelMax: 9000,
+		Quick:    900,
 	})
 	Register(&EP{
 		Name: "psb.pspbinary",
